@@ -23,3 +23,103 @@ def regions(b):
 
 def stems_idx(b):
     return [[e.index_ for e in st] for st in b._BpSeq__stems_entries]
+
+
+# ------------------------------------------------------------------ solvers
+import pulp  # noqa: E402
+
+
+class Recording(pulp.LpSolver):
+    """delegates to the bundled CBC and records the problem it was given"""
+    name = "Recording"
+
+    def __init__(self):
+        super().__init__(msg=False)
+        self.lp = None
+        self.inner = pulp.PULP_CBC_CMD(msg=False)
+        self.calls = 0
+
+    def available(self):
+        return True
+
+    def actualSolve(self, lp, **kw):
+        self.calls += 1
+        self.lp = lp
+        return self.inner.actualSolve(lp, **kw)
+
+
+class Fake(pulp.LpSolver):
+    """fault injection: behaviour in {'raise', 'notsolved', 'infeasible', 'unbounded', 'undefined'}"""
+    name = "Fake"
+
+    def __init__(self, behaviour):
+        super().__init__(msg=False)
+        self.behaviour = behaviour
+        self.calls = 0
+
+    def available(self):
+        return True
+
+    def actualSolve(self, lp, **kw):
+        self.calls += 1
+        if self.behaviour == "raise":
+            raise pulp.PulpSolverError("injected")
+        status = {"notsolved": pulp.LpStatusNotSolved, "infeasible": pulp.LpStatusInfeasible,
+                  "unbounded": pulp.LpStatusUnbounded, "undefined": pulp.LpStatusUndefined}[self.behaviour]
+        lp.assignStatus(status)
+        return status
+
+
+def lp_summary(lp, n_regions):
+    """canonical summary of the captured problem, in the shape Run.R2D.run_lp prints"""
+    import re
+    names = {}
+    for v in lp.variables():
+        m = re.fullmatch(r"x_(\d+)_(\d+)", v.name)
+        if not m or v.lowBound != 0 or v.upBound != 1 or v.cat != pulp.LpInteger:
+            return Err("UnexpectedVariable")
+        names[v.name] = (int(m.group(1)), int(m.group(2)))
+    if lp.sense != pulp.LpMaximize:
+        return Err("NotMaximize")
+    m_order = 1 + max(o for _, o in names.values())
+    n = 1 + max(i for i, _ in names.values())
+    if len(names) != n * m_order:
+        return Err("VariableCount")
+    obj = {names[v.name]: c for v, c in lp.objective.items()}
+    coefs = []
+    for i in range(n):
+        for o in range(m_order):
+            c = obj.get((i, o), 0)
+            if c != int(c):
+                return Err("NonIntegerCoefficient")
+            coefs.append(int(c))
+    eq_ok = True
+    eq_regions = []
+    adjacency = []
+    for c in lp.constraints.values():
+        items = [(names[v.name], k) for v, k in c.items()]
+        rhs = -c.constant
+        if c.sense == pulp.LpConstraintEQ:
+            regs = {io[0] for io, _ in items}
+            if len(regs) != 1 or rhs != 1 or any(k != 1 for _, k in items) or sorted(io[1] for io, _ in items) != list(range(m_order)):
+                eq_ok = False
+            eq_regions.append(next(iter(regs)))
+        elif c.sense == pulp.LpConstraintLE:
+            if len(items) != 2 or rhs != 1 or any(k != 1 for _, k in items) or items[0][0][1] != items[1][0][1]:
+                return Err("UnexpectedRow")
+            adjacency.append([items[0][0][0], items[1][0][0], items[0][0][1]])
+        else:
+            return Err("UnexpectedSense")
+    if sorted(eq_regions) != list(range(n)):
+        eq_ok = False
+    return [n, m_order, coefs, sorted(adjacency), eq_ok]
+
+
+def ones_of(lp):
+    import re
+    out = []
+    for v in lp.variables():
+        if v.varValue == 1:
+            m = re.fullmatch(r"x_(\d+)_(\d+)", v.name)
+            out.append((int(m.group(1)), int(m.group(2))))
+    return out
